@@ -143,6 +143,12 @@ func (o *C17) afterSetKeys(w *World, r *TxResult) {
 	m := r.Tx.Msgs[0].(*mhub2types.MsgDelegateKeys)
 	chain := m.ChainId
 	km := w.keyModelOf(chain)
+	if r.Tx.Meta["poison"] == "1" {
+		// the transaction carries a second message that always fails: it is rolled back as a whole, the model does not
+		// move (the store comparison below still runs against the unchanged model)
+		w.St.Probe("registration-rolled-back")
+		return
+	}
 	extA := parse20(m.ExternalAddress)
 	// identities, not spellings: bech32 is admissible in all-upper case too, and names the same account
 	orchID, valID := m.OrchestratorAddress, m.ValidatorAddress
